@@ -122,7 +122,11 @@ func (c *Ctx) classifyMapRange(s *mapRangeSite) (string, token.Pos) {
 					pk := callee.Pkg().Path()
 					if (pk == "sort" || pk == "slices") && len(x.Args) > 0 {
 						if id, ok := ast.Unparen(x.Args[0]).(*ast.Ident); ok && info.Uses[id] == obj {
-							found = true
+							// a comparator that only tests boolean criteria is a partial order:
+							// ties keep the (map) order in which the slice was built
+							if len(x.Args) < 2 || comparatorIsOrdered(info, x.Args[1]) {
+								found = true
+							}
 						}
 						// sort.Sort(byX(slice))
 						if conv, ok := ast.Unparen(x.Args[0]).(*ast.CallExpr); ok && len(conv.Args) == 1 {
@@ -203,6 +207,24 @@ func (c *Ctx) classifyMapRange(s *mapRangeSite) (string, token.Pos) {
 				}
 				switch lx := ast.Unparen(l).(type) {
 				case *ast.IndexExpr:
+					// M[k] = append(M[k], v): per-key slices grow in iteration order; they must
+					// be sorted (with an ordered comparator) when M is walked afterwards
+					if len(x.Rhs) == len(x.Lhs) {
+						if call, ok := ast.Unparen(x.Rhs[i]).(*ast.CallExpr); ok {
+							if id, ok := ast.Unparen(call.Fun).(*ast.Ident); ok {
+								if b, ok := info.Uses[id].(*types.Builtin); ok && b.Name() == "append" && len(call.Args) > 0 &&
+									types.ExprString(ast.Unparen(call.Args[0])) == types.ExprString(ast.Unparen(l)) {
+									if mid, ok := ast.Unparen(lx.X).(*ast.Ident); ok {
+										if obj := info.Uses[mid]; obj != nil && valuesSortedLater(info, fn, s.Stmt, obj) {
+											continue
+										}
+									}
+									fail(l.Pos(), "appends to the per-key slice %s in map-iteration order and the slices are not sorted with an ordered comparator afterwards", types.ExprString(l))
+									return
+								}
+							}
+						}
+					}
 					// m2[k] = v : map insert is commutative when keys are the iteration keys;
 					// slice[idx] = v is a keyed store as well
 					continue
@@ -484,4 +506,66 @@ func init() {
 		}
 		fmt.Println(r.Instances)
 	}
+}
+
+// comparatorIsOrdered: the less-function contains an ordered comparison (< > or
+// a Compare call) between non-boolean operands, i.e. it can break ties between
+// elements that agree on its boolean criteria.
+func comparatorIsOrdered(info *types.Info, e ast.Expr) bool {
+	lit, ok := ast.Unparen(e).(*ast.FuncLit)
+	if !ok {
+		return true // a named comparator: not judged
+	}
+	ordered := false
+	ast.Inspect(lit.Body, func(n ast.Node) bool {
+		switch x := n.(type) {
+		case *ast.BinaryExpr:
+			switch x.Op {
+			case token.LSS, token.GTR, token.LEQ, token.GEQ:
+				ordered = true
+			}
+		case *ast.CallExpr:
+			if f := calleeOf(info, x); f != nil && (f.Name() == "Compare" || f.Name() == "Less") {
+				ordered = true
+			}
+		}
+		return !ordered
+	})
+	return ordered
+}
+
+// valuesSortedLater: after the loop, `for _, v := range M { ... sort(v, ordered) ... }`.
+func valuesSortedLater(info *types.Info, fn *funcInfo, after *ast.RangeStmt, mapObj types.Object) bool {
+	found := false
+	ast.Inspect(fn.Decl.Body, func(n ast.Node) bool {
+		rs, ok := n.(*ast.RangeStmt)
+		if !ok || rs.Pos() < after.End() {
+			return true
+		}
+		id, ok := ast.Unparen(rs.X).(*ast.Ident)
+		if !ok || info.Uses[id] != mapObj {
+			return true
+		}
+		vid, ok := rs.Value.(*ast.Ident)
+		if !ok {
+			return true
+		}
+		vobj := info.Defs[vid]
+		ast.Inspect(rs.Body, func(m ast.Node) bool {
+			call, ok := m.(*ast.CallExpr)
+			if !ok || len(call.Args) == 0 {
+				return true
+			}
+			if callee := calleeOf(info, call); callee != nil && callee.Pkg() != nil && (callee.Pkg().Path() == "sort" || callee.Pkg().Path() == "slices") {
+				if a0, ok := ast.Unparen(call.Args[0]).(*ast.Ident); ok && info.Uses[a0] == vobj {
+					if len(call.Args) < 2 || comparatorIsOrdered(info, call.Args[1]) {
+						found = true
+					}
+				}
+			}
+			return !found
+		})
+		return !found
+	})
+	return found
 }
